@@ -54,7 +54,10 @@ CFG = dict(
          "callers x 50 calls (plain calls at 64), under a wedge detection (every goroutine blocked for good, some on a mutex: the calls without "
          "result are failing inputs); (G) batches of 8 / 9 / 3 / 2 concurrent calls (every request of a batch reaches the server before a handler "
          "returns: 8 workers busy at once) separated by GAPS of virtual time (6 s, 1 min, 1 h: schedule action STick, the scheduler sleeps in "
-         "the bubble so that timers fire), 2..4 batches, direct / Proxy / Demux, and random ticks in a third of (B); every history judged by spec_c01",
+         "the bubble so that timers fire), 2..4 batches, direct / Proxy / Demux, and random ticks in a third of (B); (H) ONE Server, two connections: k in {1, 8, 9} calls of an "
+         "earlier connection A are in flight at their gated handlers when A's transport fails (both directions), the handlers return afterwards, "
+         "then ordinary calls on connection B of the same Server (direct / Proxy / Demux): each must get the reply to its own request; (I) every "
+         "third unary call of every family spells its method WITHOUT the leading slash (the server accepts both spellings); every history judged by spec_c01",
     assumptions=["payload bytes are identified by a 59-bit hash taken at the moment of each observation (a collision could hide, never "
                  "create, a difference)",
                  "handler invocation and call are linked by a request-metadata tag (sy-c), i.e. through the same envelope; plain calls "
